@@ -50,6 +50,7 @@ def setup(rep, tier):
     rep.minimum('R10.7', 1)
     rep.minimum('R10.8', 7)
     rep.minimum('R10.9', 2)
+    rep.minimum('R10.10', 1)
 
 
 # ---------------------------------------------------------------- R10.1
@@ -664,7 +665,49 @@ def r10_9(rep, prog):
     return n
 
 
+# ------------------------------------------------------------------ R10.10
+def r10_10(rep, prog):
+    """equal duration of the streams of one multistream packet: the per-stream duration that
+    opus_multistream_packet_validate compares and returns is the duration of the whole stream packet - it depends on
+    the packet's frame count (opus_packet_get_nb_samples, or frame count x samples per frame), not on the TOC alone."""
+    if not prog.has_fn('opus_multistream_packet_validate'):
+        rep.unresolved('R10.10', '%s: opus_multistream_packet_validate not found' % prog.config)
+        return 0
+    f = prog.fn('opus_multistream_packet_validate')
+    rep.functions.add(f.name)
+    cf = cfgm.CFG(f)
+    rets = [(b, i, s_) for b, i, s_ in T.returns_of(cf) if len(s_) > 1 and sx.kind(sx.strip(s_[1])) == 'local']
+    inst = '%s:opus_multistream_packet_validate measures each stream by its whole duration' % prog.config
+    if not rets:
+        rep.unresolved('R10.10', inst + ': no return of a local')
+        return 0
+    rets.sort(key=lambda r: sx.line(r[2]) or 0)
+    rets = [rets[-1]]      # the success return at the end (earlier ones pass an error code on)
+    loc = sx.strip(rets[0][2][1])
+    seen, calls, work = set(), set(), [loc]
+    uses_count = False
+    while work:
+        x = work.pop()
+        for y in sx.walk(x):
+            if sx.kind(y) == 'call':
+                calls.add(sx.callee_name(y))
+            if sx.kind(y) == 'local' and y[2] not in seen:
+                seen.add(y[2])
+                if y[1] == 'count':
+                    uses_count = True
+                work += [r for lv, r in decide.find_assign(f, y[1])]
+    ok = 'opus_packet_get_nb_samples' in calls or ('opus_packet_get_samples_per_frame' in calls and uses_count and 'opus_packet_parse_impl' in calls)
+    where = '%s:%s' % (f.file, sx.line(rets[0][2]))
+    if ok:
+        rep.holds('R10.10', inst, where, 'returned value derives from %s' % sorted(c for c in calls if c))
+    else:
+        rep.violated('R10.10', inst, where, 'the returned duration derives from %s only: the frame count is ignored, so streams of different duration (2 x 20 ms next to 1 x 20 ms) pass validation' % sorted(c for c in calls if c),
+                     key='validate-duration')
+    return 1
+
+
 def check(rep, prog, tier):
+    r10_10(rep, prog)
     r10_9(rep, prog)
     r10_7(rep, prog)
     r10_8(rep, prog)
